@@ -14,8 +14,11 @@ def plan(tier, seed):
             ch("C09", G, "h_multi_append", t, ["api.ParquetFile.write_row_groups", "writer.write_multi"])]
     # the append step numbers its new part files above every existing id (ids of several digits, inside partition
     # directories): same harnesses as C07
+    jobs.append(ch("C09", "vf/pyshim/h_c08.py", "h_overwrite_key_text", t, ["util.path_string",
+                                                                            "writer.overwrite (key text expression)"]))
     jobs.append(ch("C09", G, "h_find_max_part", t, ["writer.find_max_part", "api.part_ids"]))
     jobs.append(ch("C09", G, "h_find_max_part_dirs", t, ["writer.find_max_part", "api.part_ids"]))
+    jobs.append(ch("C09", G, "h_find_max_part_order", t, ["writer.find_max_part", "api.part_ids"]))
     for ids in ["1,2", "9,10"] if tier == "quick" else ["1,2", "0,2,5", "9,10"]:
         j = ch("C09", G, "h_multi_append", t, ["writer.write_multi", "writer.find_max_part"], shape=dict(old_ids=ids),
                env=dict(VERIF_OLD_IDS=ids))
